@@ -200,13 +200,17 @@ pub fn run(args: &Args) -> i32 {
     let matrix = frames::synth_matrix();
     rec.count("feature_matrix_plans_confirmed_by_reference", matrix.len() as u64);
     let small_only = args.build.starts_with("asan");
-    matrix.par_iter().for_each(|c| {
+    matrix.par_iter().enumerate().for_each(|(k, c)| {
         if small_only && c.expected.len() > (8 << 20) {
             return;
         }
+        let _g = case_guard(100, k as u64);
         judge(&rec, c, &all)
     });
-    frames::corpus().par_iter().for_each(|c| judge(&rec, c, &all));
+    frames::corpus().par_iter().enumerate().for_each(|(k, c)| {
+        let _g = case_guard(101, k as u64);
+        judge(&rec, c, &all)
+    });
 
     // a frame whose content does not fit 32 bits: 8 byte Frame_Content_Size, 32 769 RLE blocks (131 KB of frame, 4 GiB + 1234 bytes of content)
     if !small_only {
